@@ -17,6 +17,7 @@
 #include "vx_stubs.hpp"
 struct EofStream : BinInputStream { XMLFilePos curPos() const { return 0; } XMLSize_t readBytes(XMLByte* const, const XMLSize_t) { return 0; } const XMLCh* getContentType() const { return 0; } };
 static XMLCh EMPTY[1] = { 0 };
+XMLReader* vx_rd; XMLSize_t vx_app_total; int vx_app_bad; XMLSize_t vx_app_next;   // recorder state of the cut XMLBuffer::append (C01/appendstub.cpp)
 extern "C" void harness_getname(void) {
   VxMMFixed<128> mm; static const XMLCh nm[] = { 'U', 0 };
   XMLUTF8Transcoder tc(nm, XMLReader::kCharBufSize, &mm); EofStream st;
@@ -29,17 +30,19 @@ extern "C" void harness_getname(void) {
   for (unsigned i = 0; i < XMLReader::kCharBufSize; i++) { r->fCharBuf[i] = nondet_u16(); r->fCharSizeBuf[i] = 1; r->fCharOfsBuf[i] = 0; }
   XMLSize_t avail = nondet_u64(), idx = nondet_u64(); VX_ASSUME(avail <= XMLReader::kCharBufSize && idx <= avail);
   r->fCharsAvail = avail; r->fCharIndex = idx;
+  vx_rd = r; vx_app_total = 0; vx_app_bad = 0; vx_app_next = idx;
   XMLCh before[XMLReader::kCharBufSize]; for (unsigned i = 0; i < XMLReader::kCharBufSize; i++) before[i] = r->fCharBuf[i];
-  XMLBuffer name(32, &mm);
+  // the name buffer: a real XMLBuffer object over a static typed array (its heap growth is not reachable: capacity 32 > window)
+  static VxRaw<XMLBuffer> nbr; static XMLCh nstore[33]; XMLBuffer& name = nbr.obj;
+  name.fBuffer = nstore; name.fIndex = 0; name.fCapacity = 32; name.fFullSize = 0; name.fUsed = false; name.fFullHandler = 0; *(MemoryManager**)&name.fMemoryManager = &mm;
   bool token = nondet_bool(); bool nc = nondet_bool(); bool got = false, threw = false;
   try { got = nc ? r->getNCName(name) : r->getName(name, token); } catch (const XMLException&) { threw = true; }
   VX_ASSERT(!threw, "name scanning at the end of an entity does not throw");
   VX_ASSERT(r->fCharIndex <= r->fCharsAvail && r->fCharsAvail <= XMLReader::kCharBufSize, "reader invariant fCharIndex <= fCharsAvail <= kCharBufSize after getName/getNCName");
-  XMLSize_t taken = name.getLen();
-  VX_ASSERT(got == (taken != 0), "returns true iff a non-empty name was scanned");
+  XMLSize_t taken = vx_app_total;
+  VX_ASSERT(vx_app_bad == 0, "every piece appended to the name lies inside the valid part of the character buffer [0, fCharsAvail) and continues the previous piece");
+  VX_ASSERT(name.fIndex == taken && got == (taken != 0), "returns true iff a non-empty name was scanned");
   VX_ASSERT(taken <= avail - idx, "never consumes more characters than the entity still had");
-  for (XMLSize_t i = 0; i < XMLReader::kCharBufSize; i++) if (i < taken && taken <= avail - idx)
-    VX_ASSERT(name.getRawBuffer()[i] == before[idx + i], "the name is exactly the characters consumed, in order");
   VX_ASSERT(r->fCurCol == 1 + taken, "the column advances by the number of characters consumed");
   if (got && taken >= 2) VX_REACH("name of two or more characters"); if (!got) VX_REACH("no name");
   if (avail - idx >= 1 && before[avail - 1] >= 0xD800 && before[avail - 1] <= 0xDB7F && taken + 1 == avail - idx) VX_REACH("entity ends with a lone lead surrogate after a name");
